@@ -222,6 +222,121 @@ func init() {
 	}})
 }
 
+// ---- buffer-reuse operations ----------------------------------------------------------------------------
+// A caller may keep ONE buffer per argument and overwrite its contents between calls.  Every family
+// below has three operations that differ only in the contents copied into the same shared buffers
+// before the library call; the histories over a family therefore present identical slice headers with
+// different contents (and different headers with identical contents when mixed with the main ops).
+
+var reuseFamilies = []string{"X25519BaseReuse", "X25519GenericReuse", "ScalarBaseMultReuse", "VerifyReuse", "SignReuse", "BatchReuse", "NewKeyFromSeedReuse", "EdPublicKeyToX25519Reuse", "VerifyCtxReuse"}
+
+var reuseBuf struct {
+	scalar, point, seed, key, sig []byte
+	msg                           []byte
+	priv                          []byte
+	in, dst                       [32]byte
+	bpub                          []ed25519.PublicKey
+	bmsg, bsig                    [][]byte
+	ctx                           []byte
+}
+
+func reuseInit() {
+	b := &reuseBuf
+	if b.scalar != nil {
+		return
+	}
+	b.scalar, b.point, b.seed, b.key, b.sig = make([]byte, 32), make([]byte, 32), make([]byte, 32), make([]byte, 32), make([]byte, 64)
+	b.msg = make([]byte, 16)
+	b.priv = make([]byte, 64)
+	b.ctx = make([]byte, 3)
+	for i := 0; i < 4; i++ {
+		b.bpub = append(b.bpub, make([]byte, 32))
+		b.bmsg = append(b.bmsg, make([]byte, 16))
+		b.bsig = append(b.bsig, make([]byte, 64))
+	}
+}
+
+func reuseBytes(tag string, v, n int) []byte {
+	h := sha512.Sum512([]byte(fmt.Sprintf("c15 reuse %s %d", tag, v)))
+	return h[:n]
+}
+
+func init() {
+	for _, fam := range reuseFamilies {
+		for v := 0; v < 3; v++ {
+			fam, v := fam, v
+			c15ops = append(c15ops, c15op{fmt.Sprintf("%s%d", fam, v), nil, func() string { return reuseCall(fam, v) }})
+		}
+	}
+}
+
+func reuseCall(fam string, v int) string {
+	reuseInit()
+	f := fixtures()
+	b := &reuseBuf
+	switch fam {
+	case "X25519BaseReuse":
+		copy(b.scalar, reuseBytes("scalar", v, 32))
+		o, e := X25519(b.scalar, Basepoint)
+		return dig(o, e)
+	case "X25519GenericReuse":
+		copy(b.scalar, reuseBytes("scalar", v/2, 32))
+		copy(b.point, reuseBytes("point", v, 32))
+		o, e := X25519(b.scalar, b.point)
+		return dig(o, e)
+	case "ScalarBaseMultReuse":
+		copy(b.in[:], reuseBytes("scalar", v, 32))
+		ScalarBaseMult(&b.dst, &b.in)
+		return dig(b.dst)
+	case "VerifyReuse":
+		// 0, 1: two different valid triples (messages of equal length); 2: key/message of 0 with the signature of 1
+		k := 20 + v%2
+		copy(b.key, f.batchPub[k])
+		copy(b.msg, f.batchMsg[k])
+		copy(b.sig, f.batchSig[k])
+		if v == 2 {
+			copy(b.sig, f.batchSig[21])
+		}
+		return dig(ed25519.Verify(b.key, b.msg, b.sig))
+	case "VerifyCtxReuse":
+		// same key, message and signature buffers and contents; only the context contents differ
+		ctxs := []string{"ctx", "ctX", "ctx"}
+		sd := bytes.Repeat([]byte{0x31}, 32)
+		sg := ref.Sign(sd, []byte("0123456789abcdef"), ref.Ctx, []byte("ctx"))
+		copy(b.key, ref.Public(sd))
+		copy(b.msg, "0123456789abcdef")
+		copy(b.sig, sg)
+		copy(b.ctx, ctxs[v])
+		return dig(ed25519.VerifyWithOptions(b.key, b.msg, b.sig, &ed25519.Options{Context: string(b.ctx)}))
+	case "SignReuse":
+		sd := make([]byte, 32)
+		sd[0], sd[1] = byte(20+v/2), 0x15
+		copy(b.priv, stded.NewKeyFromSeed(sd))
+		copy(b.msg, f.batchMsg[20+v%2])
+		return dig(ed25519.Sign(b.priv, b.msg))
+	case "NewKeyFromSeedReuse":
+		copy(b.seed, reuseBytes("seed", v, 32))
+		return dig(ed25519.NewKeyFromSeed(b.seed))
+	case "EdPublicKeyToX25519Reuse":
+		copy(b.key, f.batchPub[30+v])
+		o, ok := EdPublicKeyToX25519(b.key)
+		return dig(o, ok)
+	case "BatchReuse":
+		for i := 0; i < 4; i++ {
+			k := 40 + 4*(v%2) + i
+			copy(b.bpub[i], f.batchPub[k])
+			copy(b.bmsg[i], f.batchMsg[k])
+			copy(b.bsig[i], f.batchSig[k])
+		}
+		if v == 2 {
+			copy(b.bsig[1], f.batchSig[41+4])
+		}
+		all, valid, err := ed25519.VerifyBatch(rt.NewRng(1, "c15"), b.bpub, b.bmsg, b.bsig, &ed25519.Options{})
+		return dig(all, valid, err)
+	}
+	panic("unknown reuse family " + fam)
+}
+
 type failingReader struct{}
 
 func (failingReader) Read(p []byte) (int, error) { return 0, fmt.Errorf("entropy source failed") }
@@ -458,6 +573,31 @@ func jobC15hist(c *rt.Ctx) {
 		}
 	}
 	c.Require("history/fill-perturb-recheck")
+	// buffer-reuse histories: within each family all ordered sequences of 2 (thorough: 3) of its three
+	// content variants, and each variant between two calls of the matching main operation
+	reuseDepth := 2
+	if c.Thorough() {
+		reuseDepth = 3
+	}
+	nReuse := 0
+	for _, fam := range reuseFamilies {
+		ix := []int{opIx(fam + "0"), opIx(fam + "1"), opIx(fam + "2")}
+		var genR func(prefix []int)
+		genR = func(prefix []int) {
+			if len(prefix) >= 2 {
+				seqs = append(seqs, append([]int{}, prefix...))
+				nReuse++
+			}
+			if len(prefix) == reuseDepth {
+				return
+			}
+			for _, o := range ix {
+				genR(append(prefix, o))
+			}
+		}
+		genR(nil)
+	}
+	c.Require("history/buffer-reuse")
 	sort.SliceStable(seqs, func(i, j int) bool { return len(seqs[i]) < len(seqs[j]) })
 	states := map[string]bool{}
 	for _, seq := range seqs {
@@ -470,7 +610,9 @@ func jobC15hist(c *rt.Ctx) {
 			continue
 		}
 		c.Step(len(seq))
-		if len(seq) > deepDepth {
+		if strings.Contains(c15ops[seq[0]].name, "Reuse") {
+			c.Class("history/buffer-reuse")
+		} else if len(seq) > deepDepth {
 			c.Class("history/fill-perturb-recheck")
 		} else {
 			c.Class(fmt.Sprintf("history/len%d", len(seq)))
